@@ -481,6 +481,11 @@ where
         for i in from..stored_to {
             if unlikely(hole_iter.peek() == Some(&&i)) {
                 hole_iter.next();
+                // After a rollback a deleted slot can still have an overlay entry (its value
+                // comes back if an earlier state is restored): keep the two walks in step.
+                if unlikely(update_iter.peek().is_some_and(|&(&k, _)| k == i)) {
+                    update_iter.next();
+                }
                 byte_off += Self::SIZE_OF_T;
                 continue;
             }
@@ -534,6 +539,11 @@ where
         for i in from..stored_to {
             if unlikely(hole_iter.peek() == Some(&&i)) {
                 hole_iter.next();
+                // After a rollback a deleted slot can still have an overlay entry (its value
+                // comes back if an earlier state is restored): keep the two walks in step.
+                if unlikely(update_iter.peek().is_some_and(|&(&k, _)| k == i)) {
+                    update_iter.next();
+                }
                 byte_off += Self::SIZE_OF_T;
                 continue;
             }
